@@ -139,6 +139,9 @@ def check_root(r, w, root, fi, ps):
                 continue
             if j is None or evs[j].kind != 'pcall':
                 continue
+            verdict = next((x for x in evs[j + 1:j + 3] if x.kind == 'cond' and not x.d.get('synthetic') and 'can_put' in x.text), None)
+            if verdict is None or verdict.polarity:
+                continue                # the last edge asked did not refuse: whatever follows is not a refusal followed by a drop
             heads = [k for k in range(j - 1, -1, -1) if evs[k].kind == 'foriter']
             if not heads:
                 continue
